@@ -531,9 +531,10 @@ func (cr *c09Run) run() {
 	// race detector treats as synchronisation): half of the runs are silent (error level), a quarter at info, a quarter at debug
 	// level (where the rendering of hosts and tables runs concurrently with everything else)
 	lv := []fastlog.LogLevel{fastlog.LevelDebug, fastlog.LevelError, fastlog.LevelInfo, fastlog.LevelError}[cr.idx%4]
-	for _, l := range []*fastlog.Logger{packet.Logger, arp_spoofer.Logger, dhcp4_spoofer.Logger, dns_naming.Logger, icmp_spoofer.Logger4, icmp_spoofer.Logger6} {
+	for _, l := range []*fastlog.Logger{packet.Logger, arp_spoofer.Logger, dhcp4_spoofer.Logger, dns_naming.Logger, dns_naming.LoggerMDNS, icmp_spoofer.Logger4, icmp_spoofer.Logger6} {
 		l.SetLevel(lv)
 	}
+	dns_naming.Debug = lv == fastlog.LevelDebug // plain variable: set before any goroutine of this run exists
 	cr.st = newStack(scratch, mon.DefaultNIC())
 	cr.st.rec.Sharded()
 	cr.recordHistory = cr.idx%3 == 0
